@@ -482,6 +482,28 @@ func (fi *fileInstr) run() (bool, error) {
 	if !fi.changed {
 		return false, nil
 	}
+	// a statement that ended a function as a "terminating statement" (a select
+	// whose cases all return, say) may have been rewritten into a form the
+	// compiler no longer recognises as terminating: close every function that
+	// has results and does not end in a return with an unreachable panic
+	ast.Inspect(fi.f, func(n ast.Node) bool {
+		var ft *ast.FuncType
+		var body *ast.BlockStmt
+		switch fn := n.(type) {
+		case *ast.FuncDecl:
+			ft, body = fn.Type, fn.Body
+		case *ast.FuncLit:
+			ft, body = fn.Type, fn.Body
+		}
+		if ft == nil || body == nil || ft.Results == nil || len(ft.Results.List) == 0 || len(body.List) == 0 {
+			return true
+		}
+		if _, isRet := body.List[len(body.List)-1].(*ast.ReturnStmt); !isRet {
+			body.List = append(body.List, &ast.ExprStmt{X: &ast.CallExpr{Fun: ast.NewIdent("panic"),
+				Args: []ast.Expr{&ast.BasicLit{Kind: token.STRING, Value: strconv.Quote("unreachable (added by the instrumenter)")}}}})
+		}
+		return true
+	})
 	// drop comments (moved nodes confuse the printer), keeping those before
 	// the package clause (build constraints)
 	var keep []*ast.CommentGroup
